@@ -92,12 +92,13 @@ class InverseSqrt2exp:
       1: dict(
           invariant=["t >= 3", "t <= k or t == 3", "(a * a * n) % pow2(t) == 1"],
           variant="k - t",
+          at_exit=["t == k"],
           body_end=[
               "let P = pow2(pre_t)", "let Q = pow2(t)", "let e = pow2(2 * pre_t - 2 - t)",
               "let E = pre_a * pre_a * n - 1", "let c = idiv(pre_a * pre_a * n, P)", "let h = idiv(E, 2)",
               "let q = idiv(idiv(pre_a * (3 - pre_a * pre_a * n), 2), Q)",
               "pow2_add(t, 2 * pre_t - 2 - t)", "pow2_add(2 * pre_t - 2, 2)", "pow2_add(pre_t, pre_t)",
-              "P * P == 4 * Q * e", "E == P * c", "E == 2 * h",
+              "divmod_def(pre_a * pre_a * n, P)", "P * P == 4 * Q * e", "E == P * c", "divmod_def(E, 2)", "E == 2 * h",
               "idiv(pre_a * (3 - pre_a * pre_a * n), 2) == pre_a * (1 - h)",
               "a == pre_a * (1 - h) - Q * q",
               "4 * ((pre_a * (1 - h)) * (pre_a * (1 - h)) * n - 1) == E * E * (E - 3)",
